@@ -286,6 +286,12 @@ func (c *RollingFileAppender) createFile(formatTime string) (string, *os.File, e
 
 // clearExpiredFiles removes log files older than MaxAge.
 func (c *RollingFileAppender) clearExpiredFiles() {
+	// A maximum age that time.Duration cannot express (about 292 years and
+	// more) would overflow below and move the cut-off into the future; no
+	// file can be that old, so there is nothing to remove.
+	if int64(c.MaxAge) > int64(1<<63-1)/int64(time.Hour) {
+		return
+	}
 	expiration := time.Now().Add(-time.Duration(c.MaxAge) * time.Hour)
 	entries, _ := os.ReadDir(c.FileDir)
 	for _, entry := range entries {
